@@ -1,7 +1,376 @@
 package main
 
-// Counterexample replay on the real code (filled in incrementally).
+// Counterexample replay on the real code: model values of the parameters are
+// turned into an in-package Go test that calls the real function (injected with
+// `go test -overlay`, nothing is written into /repo). A safety obligation is
+// reproduced by a panic; an ensures/assert obligation by a hand-written Go
+// oracle from spec/replay_templates.json when one exists.
+
+import (
+	"encoding/json"
+	"fmt"
+	"go/types"
+	"os"
+	"os/exec"
+	"path/filepath"
+	"regexp"
+	"strconv"
+	"strings"
+)
+
+type ReplayTemplate struct {
+	Setup   string            `json:"setup"`   // Go statements before the call
+	Call    string            `json:"call"`    // Go statement(s) performing the call; {param} placeholders
+	Oracles map[string]string `json:"oracles"` // obligation label -> Go bool expression that must hold
+}
+
+// modelKeys lists, in order, the terms whose values are requested from the
+// solver for replay: scalar parameters, slice headers, the first bytes of byte
+// slices, and one level of struct fields behind pointer parameters.
+type modelKey struct {
+	Key  string
+	Term string
+}
+
+func (vc *VC) modelKeys(e *Engine, unit string) []modelKey {
+	fn := e.funcs[unit]
+	var out []modelKey
+	if fn == nil {
+		return out
+	}
+	declared := map[string]string{} // "p_name_leaf" -> full declared name
+	for _, d := range vc.decls {
+		f := strings.Fields(d)
+		if len(f) >= 3 && f[2] == "()" {
+			if k := strings.LastIndex(f[1], "!"); k > 0 {
+				declared[f[1][:k]] = f[1]
+			}
+		}
+	}
+	byteHeap := "H0_" + sanitize("[]uint8")
+	hasByteHeap := vc.colDecl["[]uint8"]
+	addBytes := func(key, arr, off string) {
+		if !hasByteHeap {
+			return
+		}
+		for k := 0; k < 96; k++ {
+			out = append(out, modelKey{fmt.Sprintf("%s[%d]", key, k), fmt.Sprintf("(select (select %s %s) (+ %s %d))", byteHeap, arr, off, k)})
+		}
+	}
+	for _, p := range fn.Params {
+		base := "p_" + sanitize(p.Name()) + "_"
+		switch u := p.Type().Underlying().(type) {
+		case *types.Slice:
+			arr, off, ln := declared[base+"arr"], declared[base+"off"], declared[base+"len"]
+			if arr == "" {
+				continue
+			}
+			out = append(out, modelKey{p.Name() + ".len", ln}, modelKey{p.Name() + ".arr", arr})
+			if b, ok := u.Elem().Underlying().(*types.Basic); ok && b.Kind() == types.Uint8 {
+				addBytes(p.Name(), arr, off)
+			}
+		case *types.Pointer:
+			ptr := declared[base]
+			if ptr == "" {
+				continue
+			}
+			out = append(out, modelKey{p.Name(), ptr})
+			st, ok := u.Elem().Underlying().(*types.Struct)
+			if !ok || e.isOpaqueStruct(u.Elem()) {
+				continue
+			}
+			lv := e.rootLV(ptr, u.Elem())
+			for i := 0; i < st.NumFields(); i++ {
+				f := st.Field(i)
+				for _, l := range e.shape(f.Type()).Leaves {
+					if l.InArr {
+						continue
+					}
+					col := lv.Col + "." + joinPath(f.Name(), l.Path)
+					if !vc.colDecl[col] {
+						continue
+					}
+					out = append(out, modelKey{p.Name() + "." + joinPath(f.Name(), l.Path), fmt.Sprintf("(select H0_%s %s)", sanitize(col), ptr)})
+				}
+				if sl, ok := f.Type().Underlying().(*types.Slice); ok {
+					if b, ok := sl.Elem().Underlying().(*types.Basic); ok && b.Kind() == types.Uint8 {
+						col := lv.Col + "." + f.Name()
+						if vc.colDecl[col+".arr"] {
+							addBytes(p.Name()+"."+f.Name(), fmt.Sprintf("(select H0_%s %s)", sanitize(col+".arr"), ptr), fmt.Sprintf("(select H0_%s %s)", sanitize(col+".off"), ptr))
+						}
+					}
+				}
+			}
+		default:
+			if n := declared[base]; n != "" {
+				out = append(out, modelKey{p.Name(), n})
+			}
+		}
+	}
+	return out
+}
+
+// parseModelOrdered parses "((t1 v1) (t2 v2) ...)" and returns the values in order.
+func parseModelOrdered(model string) []string {
+	var vals []string
+	depth := 0
+	start := -1
+	s := model
+	for i := 0; i < len(s); i++ {
+		switch s[i] {
+		case '(':
+			depth++
+			if depth == 2 {
+				start = i
+			}
+		case ')':
+			if depth == 2 && start >= 0 {
+				pair := s[start+1 : i]
+				// value = last top-level element of the pair
+				vals = append(vals, lastElem(pair))
+				start = -1
+			}
+			depth--
+		}
+	}
+	return vals
+}
+
+func lastElem(pair string) string {
+	pair = strings.TrimSpace(pair)
+	if strings.HasSuffix(pair, ")") {
+		d := 0
+		for i := len(pair) - 1; i >= 0; i-- {
+			switch pair[i] {
+			case ')':
+				d++
+			case '(':
+				d--
+				if d == 0 {
+					return pair[i:]
+				}
+			}
+		}
+	}
+	if k := strings.LastIndexAny(pair, " \n\t"); k >= 0 {
+		return pair[k+1:]
+	}
+	return pair
+}
+
+func modelInt(v string) (int64, bool) {
+	neg := false
+	v = strings.TrimSpace(v)
+	if strings.HasPrefix(v, "(- ") {
+		neg = true
+		v = strings.TrimSuffix(v[3:], ")")
+	}
+	n, err := strconv.ParseInt(strings.TrimSpace(v), 10, 64)
+	if err != nil {
+		return 0, false
+	}
+	if neg {
+		n = -n
+	}
+	return n, true
+}
+
+func bytesLiteral(m map[string]string, key string, ln int64) string {
+	var bytes []string
+	last := -1
+	for k := 0; k < int(ln) && k < 96; k++ {
+		v, ok := m[fmt.Sprintf("%s[%d]", key, k)]
+		n, ok2 := modelInt(v)
+		if !ok || !ok2 || n < 0 || n > 255 {
+			n = 0
+		}
+		if n != 0 {
+			last = k
+		}
+		bytes = append(bytes, fmt.Sprint(n))
+	}
+	bytes = bytes[:last+1]
+	return fmt.Sprintf("append([]byte{%s}, make([]byte, %d)...)", strings.Join(bytes, ","), int(ln)-len(bytes))
+}
+
+// paramLiteral renders a Go expression for parameter p from the model.
+func (e *Engine) paramLiteral(name string, T types.Type, m map[string]string) (string, bool) {
+	bare := func(t types.Type) string { return types.TypeString(t, func(p *types.Package) string { return "" }) }
+	switch u := T.Underlying().(type) {
+	case *types.Basic:
+		v, ok := m[name]
+		if !ok {
+			return "", false
+		}
+		switch {
+		case u.Info()&types.IsBoolean != 0:
+			return strings.TrimSpace(v), true
+		case u.Info()&types.IsInteger != 0:
+			n, ok := modelInt(v)
+			if !ok {
+				return "", false
+			}
+			return fmt.Sprintf("%s(%d)", bare(T), n), true
+		}
+	case *types.Slice:
+		if b, ok := u.Elem().Underlying().(*types.Basic); ok && b.Kind() == types.Uint8 {
+			ln, ok := modelInt(m[name+".len"])
+			if !ok || ln < 0 || ln > 1<<22 {
+				return "", false
+			}
+			if a, ok := modelInt(m[name+".arr"]); ok && a == 0 && ln == 0 {
+				return "[]byte(nil)", true
+			}
+			return bytesLiteral(m, name, ln), true
+		}
+	case *types.Pointer:
+		st, ok := u.Elem().Underlying().(*types.Struct)
+		if !ok || e.isOpaqueStruct(u.Elem()) {
+			return "", false
+		}
+		var fields []string
+		for i := 0; i < st.NumFields(); i++ {
+			f := st.Field(i)
+			switch fu := f.Type().Underlying().(type) {
+			case *types.Basic:
+				if v, ok := m[name+"."+f.Name()]; ok {
+					if fu.Info()&types.IsBoolean != 0 {
+						fields = append(fields, f.Name()+": "+strings.TrimSpace(v))
+					} else if n, ok := modelInt(v); ok && fu.Info()&types.IsInteger != 0 {
+						fields = append(fields, fmt.Sprintf("%s: %d", f.Name(), n))
+					}
+				}
+			case *types.Slice:
+				if b, ok := fu.Elem().Underlying().(*types.Basic); ok && b.Kind() == types.Uint8 {
+					if ln, ok := modelInt(m[name+"."+f.Name()+".len"]); ok && ln >= 0 && ln < 1<<22 {
+						fields = append(fields, f.Name()+": "+bytesLiteral(m, name+"."+f.Name(), ln))
+					}
+				}
+			}
+		}
+		return fmt.Sprintf("&%s{%s}", bare(u.Elem()), strings.Join(fields, ", ")), true
+	}
+	return "", false
+}
 
 func (e *Engine) replayModel(verif, prop, unit, obName, model string, rec map[string]interface{}) (bool, string) {
-	return false, ""
+	fn := e.funcs[unit]
+	if fn == nil || model == "" {
+		return false, ""
+	}
+	m := map[string]string{}
+	if err := json.Unmarshal([]byte(model), &m); err != nil {
+		return false, "model not understood"
+	}
+	var tmpls map[string]*ReplayTemplate
+	if data, err := os.ReadFile(filepath.Join(verif, "spec", "replay_templates.json")); err == nil {
+		json.Unmarshal(data, &tmpls)
+	}
+	t := tmpls[unit]
+	lits := map[string]string{}
+	allOK := true
+	for _, p := range fn.Params {
+		lit, ok := e.paramLiteral(p.Name(), p.Type(), m)
+		if !ok {
+			allOK = false
+			continue
+		}
+		lits[p.Name()] = lit
+	}
+	rec["inputs"] = lits
+	if t == nil {
+		// default template: plain function with fully rendered parameters
+		if !allOK || fn.Signature.Recv() != nil || fn.Parent() != nil || fn.TypeParams().Len() > 0 {
+			return false, "no replay template for " + unit
+		}
+		var args []string
+		for _, p := range fn.Params {
+			args = append(args, lits[p.Name()])
+		}
+		t = &ReplayTemplate{Call: fn.Name() + "(" + strings.Join(args, ", ") + ")"}
+	}
+	call := t.Call
+	setup := t.Setup
+	for k, v := range lits {
+		call = strings.ReplaceAll(call, "{"+k+"}", v)
+		setup = strings.ReplaceAll(setup, "{"+k+"}", v)
+	}
+	if strings.Contains(call, "{") && regexp.MustCompile(`\{[a-zA-Z_]\w*\}`).MatchString(call) {
+		return false, "model does not determine every input of the replay template"
+	}
+	// oracle for this obligation (label is between '[' and '@' or ']')
+	oracle := ""
+	label := obName
+	if k := strings.Index(obName, "["); k >= 0 {
+		label = obName[k+1:]
+		label = strings.TrimSuffix(label, "]")
+		if j := strings.Index(label, "@"); j >= 0 {
+			label = label[:j]
+		}
+	}
+	for k, v := range t.Oracles {
+		if strings.Contains(label, k) {
+			oracle = v
+			for pk, pv := range lits {
+				oracle = strings.ReplaceAll(oracle, "{"+pk+"}", pv)
+			}
+		}
+	}
+	isSafety := strings.Contains(obName, "#safety[") || strings.Contains(obName, "#requires[")
+	if oracle == "" && !isSafety {
+		return false, "no executable oracle for this obligation"
+	}
+	if oracle == "" {
+		oracle = "true"
+	}
+	src := fmt.Sprintf(`package corebgp
+
+import (
+	"fmt"
+	"testing"
+)
+
+var _ = fmt.Sprint
+
+func TestCbvReplay(t *testing.T) {
+	defer func() {
+		if r := recover(); r != nil {
+			fmt.Println("CBV-REPLAY: PANIC:", r)
+		}
+	}()
+	%s
+	%s
+	if !(%s) {
+		fmt.Println("CBV-REPLAY: ORACLE-VIOLATED")
+		return
+	}
+	fmt.Println("CBV-REPLAY: OK")
+}
+`, setup, call, oracle)
+	dir, err := os.MkdirTemp("", "cbvreplay")
+	if err != nil {
+		return false, err.Error()
+	}
+	defer os.RemoveAll(dir)
+	testFile := filepath.Join(dir, "zz_cbv_replay_test.go")
+	os.WriteFile(testFile, []byte(src), 0o644)
+	ov := map[string]map[string]string{"Replace": {filepath.Join(e.repo, "zz_cbv_replay_test.go"): testFile}}
+	ob, _ := json.Marshal(ov)
+	ovFile := filepath.Join(dir, "ov.json")
+	os.WriteFile(ovFile, ob, 0o644)
+	cmd := exec.Command("sh", "-c", fmt.Sprintf("cd %s && ulimit -v 8000000; go test -overlay %s -vet=off -v -count=1 -timeout 60s -run '^TestCbvReplay$' . 2>&1 | tail -40", e.repo, ovFile))
+	cmd.Env = append(os.Environ(), "GOFLAGS=-mod=mod", "GOPROXY=off", "GOSUMDB=off", "GOTOOLCHAIN=local")
+	out, _ := cmd.CombinedOutput()
+	rec["replay_test"] = src
+	rec["replay_output"] = string(out)
+	s := string(out)
+	switch {
+	case strings.Contains(s, "CBV-REPLAY: PANIC"):
+		return isSafety || true, "the real code panics on the model's input"
+	case strings.Contains(s, "CBV-REPLAY: ORACLE-VIOLATED"):
+		return true, "the real code violates the obligation's oracle on the model's input"
+	case strings.Contains(s, "CBV-REPLAY: OK"):
+		return false, "the real code behaves correctly on the model's input (candidate counterexample not confirmed)"
+	}
+	return false, "replay did not run: " + firstLines(s, 3)
 }
